@@ -74,3 +74,22 @@ def diff_trees(a, b):
             x, y = a.get(p), b.get(p)
             out.append("%s: %s -> %s" % (p, None if x is None else (x[0], oct(x[1]), x[2][:60]), None if y is None else (y[0], oct(y[1]), y[2][:60])))
     return out
+
+
+def ops_family(run_, exe, scns, label="ops"):
+    """operation-sequence correspondence: the real run's file-system system calls on the scenario directory, in order, against
+    the operation trace of the model (World.sysop): the theorems about which operations happen, on which paths and in which
+    order (C09, C10, C15-C18) speak about exactly this trace.  Returns a mismatch list for finish()."""
+    res = run_many(exe, scns, strace=l2.TRACE_CALLS, timeout=40)
+    model = run_model([l2.model_line(s) for s in scns])
+    mism = []
+    for i, (s, r, ml) in enumerate(zip(scns, res, model)):
+        a = l2.ops_of_trace(r.get("trace", [])); b = l2.model_ops(ml)
+        run_.count("ops " + l2.model_line(s), True, label + " %d operations" % min(len(a), 9))
+        if r.get("timed_out"):
+            continue
+        if a != b:
+            k = next((j for j in range(min(len(a), len(b))) if a[j] != b[j]), min(len(a), len(b)))
+            mism.append((i, "operation sequences differ at position %d" % k,
+                         dict(scenario=describe(s), impl_ops=a, model_ops=b, first_difference=dict(position=k, impl=a[k:k + 2], model=b[k:k + 2]))))
+    return mism
